@@ -2,11 +2,17 @@
    Proved (specification side): the byte pattern a sync/full flush ends with - three zero bits,
    zero padding to the byte boundary, 00 00 FF FF - is read by the RFC 1951 specification, at every
    bit alignment and whatever follows, as one empty non-final stored block ending on a byte
-   boundary.  That the compressor emits exactly this at the flush point and that all earlier
-   input is decodable there is decided per explored flush point by the specification's prefix
-   decoder; at level 0 the emitted bytes are byte-exact against the model. *)
+   boundary.  Proved (model side, level 0, every input and every schedule of compress() calls with flush
+   None / Sync / Full / Finish): at a flush point - no pending output, no look-ahead, no open block - the
+   bytes delivered so far are, after the zlib header, whole non-final stored blocks which the
+   specification's prefix decoder expands to exactly the input consumed so far, ending on a byte
+   boundary.  For levels 1..10 the same is decided per explored flush point by the specification's
+   prefix decoder (and, for a full flush, by decoding the remainder on its own). *)
 From Coq Require Import NArith List Bool.
+From MZ.lib Require Import Mach.
 From MZ.spec Require Import DeflateSpec.
+From MZ.model Require Import DeflateCore Oracle.
+From MZ.proofs Require Import StoredSpec StoredModel StoredStream StoredPrefix.
 Import ListNotations.
 Local Open Scope N_scope.
 
@@ -22,3 +28,27 @@ Theorem C12_sync_marker_is_empty_stored_block :
   forall rest, marker_ok 0 rest /\ marker_ok 1 rest /\ marker_ok 2 rest /\ marker_ok 3 rest /\
                marker_ok 4 rest /\ marker_ok 5 rest /\ marker_ok 6 rest /\ marker_ok 7 rest.
 Proof. intros rest. unfold marker_ok. repeat split; reflexivity. Qed.
+
+Theorem C12_level0_flush_point_decodable_partial :
+  forall (data : list N) (flags wb : N),
+  hasf flags FLAG_RAW = true -> wb <= 15 ->
+  forall sched c' rest' acc' n',
+  bytes_ok data ->
+  Forall (fun it => legal_flush (snd it)) sched ->
+  run_calls (comp_new flags wb) data sched [] 0 = Ret (Some (c', rest', acc', n')) ->
+  c_finished c' = false -> c_pending c' = [] -> c_total_bytes c' = 0 -> c_la_size c' = 0 ->
+  n' <= N.of_nat (length data) /\
+  exists body blocks,
+    acc' = (if c_block_index c' =? 0 then [] else hdr flags wb) ++ body /\
+    prefix_spec body = (Some (firstn (N.to_nat n') data), 8 * N.of_nat (length body), true, false, blocks).
+Proof. exact flush_point_decodable. Qed.
+
+(* non-vacuity: after a sync flush that was given room, the model is at a flush point *)
+Example C12_a_flush_point :
+  match run_calls (comp_new 528384 15) (repeat 66 100) [(40, 1000, 0); (60, 1000, 2)] [] 0 with
+  | Ret (Some (c, _, acc, n)) =>
+      c_finished c = false /\ c_pending c = [] /\ c_total_bytes c = 0 /\ c_la_size c = 0 /\ n = 100 /\
+      N.of_nat (length acc) = 2 + 5 + 100 + 5
+  | _ => False
+  end.
+Proof. vm_compute. repeat split; reflexivity. Qed.
